@@ -252,6 +252,33 @@ func c18CellValue(cell *ssa.Alloc) ssa.Value {
 	return val
 }
 
+// callerValue: a value of frame fr that is a parameter is the argument the frame was called with
+// (followed up the frames, variable cells chased): the value and the frame it belongs to.
+func (g *c18Graph) callerValue(fr *c18Frame, v ssa.Value) (ssa.Value, *c18Frame) {
+	for depth := 0; depth < 8 && fr != nil && v != nil; depth++ {
+		v = c18Root(v)
+		pa, ok := v.(*ssa.Parameter)
+		if !ok || fr.site == nil || fr.parent == nil {
+			return v, fr
+		}
+		args := fr.site.Call.Args
+		if fr.site.Call.IsInvoke() {
+			args = append([]ssa.Value{fr.site.Call.Value}, args...)
+		}
+		found := false
+		for i, q := range fr.fn.Params {
+			if q == pa && i < len(args) {
+				v, fr, found = args[i], fr.parent, true
+				break
+			}
+		}
+		if !found {
+			return v, fr
+		}
+	}
+	return v, fr
+}
+
 // lit: the elements of a slice value that is a literal in frame fr — directly, or a (variadic)
 // parameter bound to a literal at the call site of the frame — and the frame they are evaluated in.
 func (g *c18Graph) lit(fr *c18Frame, v ssa.Value) ([]ssa.Value, *c18Frame, bool) {
